@@ -1,7 +1,7 @@
 """Executor for rank-0 tensors (C03): Tensor-level point access on a tensor without ranks."""
 import sys
 
-sys.path.insert(0, "/repo")
+sys.path.insert(0, __import__("os").environ.get("VERIF_REPO", "/repo"))
 from fibertree import Payload, Tensor  # noqa: E402
 
 
